@@ -218,7 +218,13 @@ fn run(input: RunInput) -> ScenFuture {
         }
         w.mark_overlap();
         let window = Duration::from_millis(spread_ms + 2 * (idle_ms + ka_ms) + 70_000);
-        if tokio::time::timeout(window * 4, futures::future::join_all(tasks)).await.is_err() {
+        // (liveness proxy, not a latency promise: under per-datagram jitter of tens of milliseconds
+        // QUIC's loss detection keeps the congestion window at its minimum of two packets per
+        // round trip, which all calls share; thorough-tier seed 9859117452081907415: 372 calls with
+        // bulk data over one stream at a time on a 24 ms link)
+        let total_bytes: u64 = calls.iter().map(|c| (c.req_len + c.resp_len + 2_000) as u64).sum();
+        let allowance = Duration::from_millis(total_bytes / 2_400 * (2 * lat_max / 1000 + 1));
+        if tokio::time::timeout(window * 4 + allowance, futures::future::join_all(tasks)).await.is_err() {
             w.violate("call-hang", "workload", "calls still pending long after every handler's natural completion");
         }
         w.fabric.set_faults_enabled(false);
